@@ -2,7 +2,7 @@
 From Coq Require Import List ZArith NArith Bool Lia.
 From RecordUpdate Require Import RecordSet.
 From PC.Base Require Import Assoc.
-From PC.Sup Require Import Model Monitors Tactics Sim ObsFacts.
+From PC.Sup Require Import Model Monitors Tactics Sim ObsFacts Effects.
 Import ListNotations RecordSetNotations.
 
 Section RelCore.
@@ -37,3 +37,212 @@ Proof.
 Qed.
 
 End RelCore.
+
+Section RelCoreStep.
+Context (cs : amap pconf).
+
+(* ---- observer-side frame facts --------------------------------------------------------------------- *)
+Lemma oi_upd_get i f o j :
+  get j (oi (oi_upd i f o)) = if N.eqb i j then option_map f (get j (oi o)) else get j (oi o).
+Proof.
+  unfold oi_upd. destruct (get i (oi o)) as [x|] eqn:E; cbn.
+  - rewrite get_set. destruct (N.eqb_spec i j); [subst; now rewrite E|reflexivity].
+  - destruct (N.eqb_spec i j); [subst; now rewrite E|reflexivity].
+Qed.
+Lemma on_upd_get n f o m :
+  get m (onm (on_upd n f o)) = if N.eqb n m then option_map f (get m (onm o)) else get m (onm o).
+Proof.
+  unfold on_upd. destruct (get n (onm o)) as [x|] eqn:E; cbn.
+  - rewrite get_set. destruct (N.eqb_spec n m); [subst; now rewrite E|reflexivity].
+  - destruct (N.eqb_spec n m); [subst; now rewrite E|reflexivity].
+Qed.
+Lemma oi_upd_onm i f o : onm (oi_upd i f o) = onm o.
+Proof. unfold oi_upd. destruct (get i (oi o)); reflexivity. Qed.
+Lemma oi_upd_o_th i f o : o_th (oi_upd i f o) = o_th o.
+Proof. unfold oi_upd. destruct (get i (oi o)); reflexivity. Qed.
+Lemma on_upd_oi n f o : oi (on_upd n f o) = oi o.
+Proof. unfold on_upd. destruct (get n (onm o)); reflexivity. Qed.
+Lemma on_upd_o_th n f o : o_th (on_upd n f o) = o_th o.
+Proof. unfold on_upd. destruct (get n (onm o)); reflexivity. Qed.
+
+Lemma get_map_snd {A} (f : N -> A -> A) (l : amap A) k :
+  get k (map (fun p => (fst p, f (fst p) (snd p))) l) = option_map (f k) (get k l).
+Proof.
+  induction l as [|[k' v] r IH]; cbn; [reflexivity|].
+  destruct (N.eqb_spec k' k); [subst; reflexivity|exact IH].
+Qed.
+
+(* refresh_succ only touches o_succ *)
+Lemma refresh_get o j :
+  get j (oi (refresh_succ o)) =
+  option_map (fun x => if o_ended x && (r_code (on_get o (o_nm x)) =? 0)%Z then x <| o_succ := true |> else x) (get j (oi o)).
+Proof.
+  unfold refresh_succ. cbn.
+  exact (get_map_snd (fun _ x => if o_ended x && (r_code (on_get o (o_nm x)) =? 0)%Z then x <| o_succ := true |> else x) (oi o) j).
+Qed.
+
+(* Rc only looks at: o_th; o_nm and o_launches of instances; r_code, r_status, r_restarts of names *)
+Definition obs_same (o o' : obs) : Prop :=
+  o_th o' = o_th o /\
+  (forall j, match get j (oi o) with
+             | Some x => exists x', get j (oi o') = Some x' /\ o_nm x' = o_nm x /\ o_launches x' = o_launches x
+             | None => get j (oi o') = None end) /\
+  (forall n, match get n (onm o) with
+             | Some r => exists r', get n (onm o') = Some r' /\ r_code r' = r_code r /\ r_status r' = r_status r /\ r_restarts r' = r_restarts r
+             | None => get n (onm o') = None end).
+
+Lemma obs_same_refl o : obs_same o o.
+Proof.
+  repeat split; intros k; [destruct (get k (oi o)) as [x|]|destruct (get k (onm o)) as [r|]]; eauto 6.
+Qed.
+
+Lemma obs_same_trans o1 o2 o3 : obs_same o1 o2 -> obs_same o2 o3 -> obs_same o1 o3.
+Proof.
+  intros (A1 & B1 & C1) (A2 & B2 & C2). repeat split; [congruence| |].
+  - intros j. specialize (B1 j). specialize (B2 j). destruct (get j (oi o1)) as [x|].
+    + destruct B1 as (x2 & E2 & ? & ?). rewrite E2 in B2. destruct B2 as (x3 & E3 & ? & ?). exists x3. repeat split; congruence.
+    + now rewrite B1 in B2.
+  - intros n. specialize (C1 n). specialize (C2 n). destruct (get n (onm o1)) as [r|].
+    + destruct C1 as (r2 & E2 & ? & ? & ?). rewrite E2 in C2. destruct C2 as (r3 & E3 & ? & ? & ?). exists r3. repeat split; congruence.
+    + now rewrite C1 in C2.
+Qed.
+
+Lemma obs_same_refresh o : obs_same o (refresh_succ o).
+Proof.
+  repeat split.
+  - intros j. rewrite refresh_get. destruct (get j (oi o)) as [x|]; cbn; [|reflexivity].
+    eexists; split; [reflexivity|]. destruct (_ && _); cbn; auto.
+  - intros n. cbn. destruct (get n (onm o)) as [r|]; eauto 6.
+Qed.
+
+Lemma obs_same_oi_upd i f o :
+  (forall x, o_nm (f x) = o_nm x /\ o_launches (f x) = o_launches x) -> obs_same o (oi_upd i f o).
+Proof.
+  intros Hf. repeat split.
+  - apply oi_upd_o_th.
+  - intros j. rewrite oi_upd_get. destruct (N.eqb i j); destruct (get j (oi o)) as [x|]; cbn; eauto;
+      exists (f x); destruct (Hf x); auto.
+  - intros n. rewrite oi_upd_onm. destruct (get n (onm o)) as [r|]; eauto 6.
+Qed.
+
+Lemma Rc_obs_same s o o' : Rc cs s o -> obs_same o o' -> Rc cs s o'.
+Proof.
+  intros [H1 H2 H3 H4 H5] (A & B & C). constructor; auto.
+  - intros th. rewrite A. apply H2.
+  - intros i x Hx. destruct (H3 i x Hx) as (xo & E & ? & ? & ?). specialize (B i). rewrite E in B.
+    destruct B as (x' & E' & ? & ?). exists x'. repeat split; congruence.
+  - intros i Hi. specialize (H4 i Hi). specialize (B i). now rewrite H4 in B.
+  - intros n c Hn. destruct (H5 n c Hn) as (v & r & Ev & Er & ? & ? & ?). specialize (C n). rewrite Er in C.
+    destruct C as (r' & Er' & ? & ? & ?). exists v, r'. repeat split; congruence.
+Qed.
+
+(* ---- model-side frame: Rc only looks at confs, thinst, (nm, cf, launches) of instances, (code, st, restarts) *)
+Definition sys_same (s s' : sys) : Prop :=
+  confs s' = confs s /\ thinst s' = thinst s /\
+  (forall j, match get j (insts s) with
+             | Some x => exists x', get j (insts s') = Some x' /\ nm x' = nm x /\ cf x' = cf x /\ launches x' = launches x
+             | None => get j (insts s') = None end) /\
+  (forall n, match get n (viss s) with
+             | Some v => exists v', get n (viss s') = Some v' /\ code v' = code v /\ st v' = st v /\ restarts v' = restarts v
+             | None => get n (viss s') = None end).
+
+Lemma Rc_sys_same s s' o : Rc cs s o -> sys_same s s' -> Rc cs s' o.
+Proof.
+  intros [H1 H2 H3 H4 H5] (A & B & C & D). constructor.
+  - congruence.
+  - intros th. rewrite B. apply H2.
+  - intros i x' Hx'. specialize (C i). destruct (get i (insts s)) as [x|] eqn:E; [|congruence].
+    destruct C as (x2 & E2 & ? & ? & ?). assert (x2 = x') by congruence. subst x2.
+    destruct (H3 i x E) as (xo & ? & ? & ? & ?). exists xo. repeat split; congruence.
+  - intros i Hi. specialize (C i). destruct (get i (insts s)) as [x|] eqn:E; [destruct C as (x2 & E2 & _); congruence|].
+    now apply H4.
+  - intros n c Hn. destruct (H5 n c Hn) as (v & r & Ev & Er & ? & ? & ?). specialize (D n). rewrite Ev in D.
+    destruct D as (v' & Ev' & ? & ? & ?). exists v', r. repeat split; congruence.
+Qed.
+
+Lemma sys_same_flush th s : sys_same s (flush th s).
+Proof.
+  repeat split; [apply flush_confs|apply flush_thinst| |].
+  - intros j. pose proof (flush_insts th s j) as H. destruct (get j (insts s)) as [x|]; [|exact H].
+    destruct H as (x' & E & L). exists x'. unfold inst_latch_le in L. intuition congruence.
+  - intros n. rewrite flush_viss. destruct (get n (viss s)) as [v|]; eauto 6.
+Qed.
+
+End RelCoreStep.
+
+(* events that change something Rc looks at *)
+Definition exceptional (e : event) : bool :=
+  match e with
+  | ENewInst _ _ | EBegin _ | ELaunch true | EState _ _ | EExitCode _ | EBackoffWait _ => true
+  | _ => false
+  end.
+
+Section RelCoreStep2.
+Context (cs : amap pconf).
+
+Lemma obs_same_on_upd n f o :
+  (forall r, r_code (f r) = r_code r /\ r_status (f r) = r_status r /\ r_restarts (f r) = r_restarts r) ->
+  obs_same o (on_upd n f o).
+Proof.
+  intros Hf. repeat split.
+  - apply on_upd_o_th.
+  - intros j. rewrite on_upd_oi. destruct (get j (oi o)) as [x|]; eauto 6.
+  - intros m. rewrite on_upd_get. destruct (N.eqb n m); destruct (get m (onm o)) as [r|]; cbn; eauto 6;
+      exists (f r); destruct (Hf r) as (? & ? & ?); auto.
+Qed.
+
+Lemma obs_same_fold_oi_upd (f : oinst -> oinst) l :
+  (forall x, o_nm (f x) = o_nm x /\ o_launches (f x) = o_launches x) ->
+  forall o, obs_same o (fold_left (fun o i => oi_upd i f o) l o).
+Proof.
+  intros Hf. induction l as [|a l IH]; intros o; cbn; [apply obs_same_refl|].
+  eapply obs_same_trans; [apply (obs_same_oi_upd a f o Hf)|apply IH].
+Qed.
+
+(* record updates of observer fields that Rc does not look at *)
+Ltac obs_same_fields :=
+  repeat split; cbn;
+  [ try reflexivity
+  | intros j; cbn; destruct (get j (oi _)) as [x|]; eauto 6
+  | intros n; cbn; destruct (get n (onm _)) as [r|]; eauto 6 ].
+
+Ltac obs_same_tac :=
+  repeat first
+  [ apply obs_same_refl
+  | eapply obs_same_trans; [|apply obs_same_oi_upd; intros; cbn; auto]
+  | eapply obs_same_trans; [|apply obs_same_on_upd; intros; cbn; auto]
+  | eapply obs_same_trans; [|apply obs_same_fold_oi_upd; intros; cbn; auto] ].
+
+Lemma obs_same_eq o o' : o_th o' = o_th o -> oi o' = oi o -> onm o' = onm o -> obs_same o o'.
+Proof.
+  intros A B C. repeat split; [exact A| |].
+  - intros k. rewrite B. destruct (get k (oi o)) as [x|]; eauto 6.
+  - intros k. rewrite C. destruct (get k (onm o)) as [r|]; eauto 6.
+Qed.
+
+Ltac obs_same_close :=
+  repeat first
+  [ apply obs_same_refl
+  | match goal with
+    | |- obs_same ?o (oi_upd ?i ?f ?X) =>
+        apply (obs_same_trans o X); [|apply obs_same_oi_upd; intros; cbn; split; reflexivity]
+    | |- obs_same ?o (on_upd ?n ?f ?X) =>
+        apply (obs_same_trans o X); [|apply obs_same_on_upd; intros; cbn; repeat split; reflexivity]
+    | |- obs_same ?o (fold_left (fun o i => oi_upd i ?f o) ?l ?X) =>
+        apply (obs_same_trans o X); [|apply obs_same_fold_oi_upd; intros; cbn; split; reflexivity]
+    | |- obs_same ?o (set _ _ ?X) =>
+        apply (obs_same_trans o X); [|apply obs_same_eq; reflexivity]
+    end ].
+
+Lemma obs_step_same o th e : exceptional e = false -> obs_same o (obs_step cs o (th, e)).
+Proof.
+  intros Hex. unfold obs_step. eapply obs_same_trans; [|apply obs_same_refresh].
+  destruct e; try discriminate Hex; cbn [fst snd];
+  try (destruct (ev_inst o th _) eqn:Ev);
+  try match goal with |- context[match ?b with true => _ | false => _ end] => destruct b end;
+  try discriminate Hex; unfold note_late_commit;
+  repeat match goal with |- context[if ?b then _ else _] => destruct b end;
+  try apply obs_same_refl; obs_same_close.
+(*STOP*)
+Qed.
+End RelCoreStep2.
